@@ -263,7 +263,10 @@ impl<'tcx> Cx<'tcx> {
     fn constant(&self, c: &mir::ConstOperand<'tcx>) -> J {
         let tcx = self.tcx;
         let ty = c.const_.ty();
-        let mut o: Vec<(&'static str, J)> = vec![("ty", J::s(format!("{}", ty)))];
+        let mut o: Vec<(&'static str, J)> = Vec::new();
+        if !matches!(ty.kind(), ty::FnDef(..)) {
+            o.push(("ty", J::s(format!("{}", ty))));
+        }
         match ty.kind() {
             ty::FnDef(def_id, args) => {
                 o.extend(self.fn_info(*def_id, args));
